@@ -307,6 +307,13 @@ Section Dict.
   Definition hm_decode (s : ys) (st : ct) : yres ys := hm_tree n (cell_of s) 0 st.
 End Dict.
 
+(** * measures of the input: size in bytes (every cell counts at least 1) and height *)
+Definition cell_w (b : bits) : N := 1 + N.of_nat (length b) / 8.
+Fixpoint tsz (c : xtree) : N :=
+  match c with XT _ b r => (cell_w b + fold_right (fun x a => tsz x + a) 0 r)%N end.
+Fixpoint thg (c : xtree) : N :=
+  match c with XT _ _ r => (1 + fold_right (fun x a => N.max (thg x) a) 0 r)%N end.
+
 (** * descriptors *)
 Inductive yty :=
 | YUint (w : nat) | YInt (w : nat) | YBigUint (w : nat) | YBigInt (w : nat)
@@ -324,7 +331,11 @@ Inductive yty :=
 | YFail                             (* UnmarshalTLB that always returns an error (VmCont) *)
 | YRawCell                          (* boc.Cell without a tag: decodeCell copies the cell, any kind *)
 | YText                             (* Text: Bytes + utf8.Valid *)
-| YBinTree (vsz : N) (v : yty).     (* BinTree[T] *)
+| YBinTree (vsz : N) (v : yty)      (* BinTree[T] *)
+| YHashed (t : yty)                 (* Message / Transaction: c.Hash() first (error if the cell cannot be
+                                       hashed), c.ResetCounters(), then the fields.  Only generated for
+                                       positions at the start of a cell, where the rewind is the identity. *)
+| YRefRaw (t : yty).                (* c1 := c.NextRef(); decoder.Unmarshal(c1, &x): no pruned-branch shortcut *)
 
 (* a reference position that checks for a pruned branch *)
 Definition sub_slice (c : xtree) (chk : bool) : option ys :=
@@ -332,15 +343,18 @@ Definition sub_slice (c : xtree) (chk : bool) : option ys :=
 
 Section Walk.
 Variable env : list yty.
+(* whether boc.Cell.Hash() succeeds on a cell: an oracle column of the harness in
+   the correspondence runs, an arbitrary predicate in the theorems *)
+Variable hash_ok : xtree -> bool.
 
 Fixpoint ydec (fuel : nat) (t : yty) (s : ys) (st : ct) {struct fuel} : yres ys :=
   let st := tickc st in
   match fuel with
   | O => yerr EFuel st
   | S f =>
-    (* decode(): c.IsLibrary(): a *boc.Cell target keeps the library cell, anything
-       else needs a resolver, and none is configured *)
-    if is_lib (yk s) && negb (match t with YRawCell => true | _ => false end) then yerr ETlb st else
+    (* decode(): c.IsLibrary(): a *boc.Cell or *Any target keeps the library cell,
+       anything else needs a resolver, and none is configured *)
+    if is_lib (yk s) && negb (match t with YRawCell | YAny => true | _ => false end) then yerr ETlb st else
     let bitsn (w : nat) : yres ys := doy (x, st) <- ylift (ytake_bits w s) st; yret (snd x) st in
     let into (cr : xtree * ys) (chk : bool) (t' : yty) (st : ct) : yres ys :=
       match sub_slice (fst cr) chk with
@@ -429,6 +443,10 @@ Fixpoint ydec (fuel : nat) (t : yty) (s : ys) (st : ct) {struct fuel} : yres ys 
         | true :: b' => yret (mkys (yk s) b' (skipn 2 (yr s))) st   (* a fork: one bit and two references of c *)
         | _ => yret last st                                          (* a leaf: c itself was decoded *)
         end
+    | YHashed t' =>
+        let st := chg (tsz (cell_of s)) st in           (* hashing walks the whole subtree *)
+        if hash_ok (cell_of s) then ydec f t' s st else yerr ETlb st
+    | YRefRaw t' => doy (cr, st) <- ylift (ytake_ref s) st; into cr false t' st
     end
   end.
 
@@ -437,9 +455,3 @@ Definition yunmarshal (fuel : nat) (t : yty) (c : xtree) : yres ys :=
   ydec fuel t (slice_of c) (mkct 0 0).
 End Walk.
 
-(** * measures of the input: size in bytes (every cell counts at least 1) and height *)
-Definition cell_w (b : bits) : N := 1 + N.of_nat (length b) / 8.
-Fixpoint tsz (c : xtree) : N :=
-  match c with XT _ b r => (cell_w b + fold_right (fun x a => tsz x + a) 0 r)%N end.
-Fixpoint thg (c : xtree) : N :=
-  match c with XT _ _ r => (1 + fold_right (fun x a => N.max (thg x) a) 0 r)%N end.
